@@ -162,6 +162,7 @@ let post (t : string list) : fprop option =
   | ["eq"; a; b] -> Some (mk_feq (parse_fv a) (parse_fv b))
   | ["add"; a; b; s] -> Some (mk_fadd (parse_fv a) (parse_fv b) (var_ix s))
   | ["sub"; a; b; s] -> Some (mk_fsub (parse_fv a) (parse_fv b) (var_ix s))
+  | ["mul"; a; b; s] -> Some (mk_fmul (parse_fv a) (parse_fv b) (var_ix s))
   | _ -> None
 
 let fmt_dom_ints (e : int list) : string =
